@@ -8,11 +8,17 @@
    every node's record is exactly (data, parent, first child, next, prev) as F dictates, identities are pairwise
    distinct (the graph is acyclic and nothing is shared), nothing else is allocated, text nodes are leaves.
    `CLinks c` = some forest is so represented by the caller state c and its roots are c's root and detached handles.
-   The "same bytes as the parsed document" half of the property is not a theorem (the encoders and Expat are not
-   modelled here): it is checked on the C by the harness (props/C18/check.py); what IS proved about it is that the
-   walk the encoders perform over the pointers is a function of the shape alone (C18_equal_shapes_equal_walks). *)
+   The "same bytes as the parsed document" half of the property: proved are that the walk the encoders perform over
+   the pointers is a function of the shape alone (C18_equal_shapes_equal_walks), that it determines the shape
+   (C18_walk_determines_shape) and hence that the bytes of the encoder models Model/EncWbxml.v / Model/EncXml.v on the
+   reified tree depend on the heap only through that walk (C18_bytes_function_of_walk_wbxml / _xml); that Expat
+   reports the items the front-end model assumes, and that the encoder models are the C, is checked by the harnesses.
+   Ownership over whole histories (nodes, nested trees, refused calls, final destruction): Model/TreeOwn.v,
+   C18_ownership_invariant / C18_destroy_releases_all / C18_refused_tree_stays_with_caller. *)
 From Coq Require Import List NArith Permutation.
+From Wbxml Require Model.EncWbxml Model.EncXml.
 From Wbxml Require Import Model.TreeGraph Proofs.TreeGraphProofs.
+From Wbxml Require Import Model.TreeOwn Proofs.TreeOwnProofs Model.TreeReify Proofs.TreeReifyProofs.
 Import ListNotations.
 Local Open Scope N_scope.
 
@@ -215,3 +221,87 @@ Example C18_ex_walk :
   | _ => False
   end.
 Proof. vm_compute. reflexivity. Qed.
+
+(* --- the global ownership invariant over operation sequences (Model/TreeOwn.v) ------------------------------ *)
+
+(* `orun` runs ANY list of API operations from the empty state, recording the nested trees the library accepted
+   (wbxml_tree_add_tree returned a node) and those it released (wbxml_tree_node_destroy_all of a detached sub-tree).
+   The caller's side of the contract: a tree is offered only while the caller owns it (`issued`).
+   After every history, refused operations included:
+   - every node is in exactly one place: the heap represents a forest F without sharing (Links), whose roots are the
+     tree's root and the detached sub-trees the caller holds (extract_node hands a sub-tree to the caller);
+   - every accepted nested tree is owned by exactly one TREE node of F or has been released exactly once, never both
+     and never twice (accepted = trees owned by F + released, as multisets, and the right-hand side has no repeat) *)
+Theorem C18_ownership_invariant : forall l ops,
+  exists s, orun l oinit ops = TOk s /\
+  exists F, Links (heap_of (ts (oc s))) F /\ map rid F = roots_of (oc s) /\
+            NoDup (accepted s) /\ Permutation (accepted s) (trees_l F ++ released s) /\
+            NoDup (trees_l F ++ released s).
+Proof. exact ownership_invariant. Qed.
+Print Assumptions C18_ownership_invariant.
+
+(* the end of every history — the caller destroys the sub-trees it holds, then wbxml_tree_destroy — empties the heap,
+   releases every node of the forest exactly once, and every nested tree the library ever accepted has then been
+   released exactly once *)
+Theorem C18_destroy_releases_all : forall l ops s, orun l oinit ops = TOk s ->
+  exists h' ids trs F,
+    ofinish s = TOk (h', ids, trs) /\ (forall i, h' i = None) /\
+    Links (heap_of (ts (oc s))) F /\ map rid F = roots_of (oc s) /\
+    NoDup ids /\ Permutation ids (ids_l F) /\
+    Permutation (accepted s) (released s ++ trs) /\ NoDup (released s ++ trs).
+Proof. exact destroy_releases_all. Qed.
+Print Assumptions C18_destroy_releases_all.
+
+(* a refused wbxml_tree_add_tree (NULL result) keeps the caller's ownership: nothing accepted, nothing released, no
+   node of the new state refers to the offered tree *)
+Theorem C18_refused_tree_stays_with_caller : forall l ops s p lang tr c',
+  orun l oinit ops = TOk s -> ~ In tr (accepted s) ->
+  exec l (oc s) (OpAddTree p lang tr) = TOk (c', false) ->
+  oexec l s (OpAddTree p lang tr) = TOk (mkO c' (accepted s) (released s ++ [])) /\
+  ~ In tr (released s) /\
+  forall F', Links (heap_of (ts c')) F' -> ~ In tr (trees_l F').
+Proof. exact refused_tree_stays_with_caller. Qed.
+Print Assumptions C18_refused_tree_stays_with_caller.
+
+(* non-vacuity: <a><b>TREE(100)</b></a>; tree 200 offered with a NULL parent on a rooted tree: refused; <b> extracted
+   (the caller holds a sub-tree owning tree 100); 100 offered again: not the caller's any more; 300 accepted under
+   <a>; the extracted sub-tree destroyed (releases 100); the end releases nodes 0 and 4 and tree 300.
+   (accepted, released, roots, nodes released at the end, trees released at the end) *)
+Example C18_ex_ownership : own_ex_summary = Some ([300; 100], [100], [0], [0; 4], [300]).
+Proof. exact own_ex. Qed.
+
+(* --- the emitted bytes are a function of the traversal (Model/TreeReify.v) ---------------------------------- *)
+
+(* the pre-order listing with brackets the encoders' walk produces determines the tree: it is injective *)
+Theorem C18_walk_determines_shape : forall s1 s2, events s1 = events s2 -> s1 = s2.
+Proof. exact walk_determines_shape. Qed.
+Print Assumptions C18_walk_determines_shape.
+
+(* two caller states, whatever histories built them, whose trees are walked alike denote the same tree *)
+Theorem C18_walk_determines_tree : forall c1 c2 tr1 tr2,
+  CLinks c1 -> CLinks c2 -> tree_of c1 = Some tr1 -> tree_of c2 = Some tr2 ->
+  enc_walk (S (fuel_of (ts c1))) (heap_of (ts c1)) (root (ts c1)) =
+  enc_walk (S (fuel_of (ts c2))) (heap_of (ts c2)) (root (ts c2)) ->
+  erase tr1 = erase tr2.
+Proof. exact walk_determines_tree. Qed.
+Print Assumptions C18_walk_determines_tree.
+
+(* hence the bytes of both encoder models depend on the heap only through that walk, for every option tuple, every
+   table, and whatever the tag options and the nested trees' contents are (parameters of reify) *)
+Theorem C18_bytes_function_of_walk_wbxml : forall wopts wsub tbl l o c1 c2 tr1 tr2,
+  CLinks c1 -> CLinks c2 -> tree_of c1 = Some tr1 -> tree_of c2 = Some tr2 ->
+  enc_walk (S (fuel_of (ts c1))) (heap_of (ts c1)) (root (ts c1)) =
+  enc_walk (S (fuel_of (ts c2))) (heap_of (ts c2)) (root (ts c2)) ->
+  EncWbxml.enc_wbxml tbl l o [reify_w wopts wsub (erase tr1)] =
+  EncWbxml.enc_wbxml tbl l o [reify_w wopts wsub (erase tr2)].
+Proof. exact bytes_function_of_walk_wbxml. Qed.
+Print Assumptions C18_bytes_function_of_walk_wbxml.
+
+Theorem C18_bytes_function_of_walk_xml : forall xopts xsub l g indent keep_ws c1 c2 tr1 tr2,
+  CLinks c1 -> CLinks c2 -> tree_of c1 = Some tr1 -> tree_of c2 = Some tr2 ->
+  enc_walk (S (fuel_of (ts c1))) (heap_of (ts c1)) (root (ts c1)) =
+  enc_walk (S (fuel_of (ts c2))) (heap_of (ts c2)) (root (ts c2)) ->
+  EncXml.enc_xml l g indent keep_ws [reify_x xopts xsub (erase tr1)] =
+  EncXml.enc_xml l g indent keep_ws [reify_x xopts xsub (erase tr2)].
+Proof. exact bytes_function_of_walk_xml. Qed.
+Print Assumptions C18_bytes_function_of_walk_xml.
